@@ -234,7 +234,7 @@ Proof.
   all: try (rewrite add_pipes_in; cbn [In]).
   all: try (right; tauto).
   all: try (destruct Hq as [[Hq|[<-|[]]]|Hq]; [tauto| |tauto]; cbn; eapply cur_pipe_in; eassumption).
-  - destruct Hq as [Hq|[[Hq|[<-|[]]]|Hq]]; try tauto.
+  - destruct Hq as [Hq|[[<-|Hq]|Hq]]; try tauto.
     change (In (q_pipe q0) (pipes s)). apply (aBq _ Hs). unfold items. rewrite !in_app_iff. right. left. eapply tf_head_in; eassumption.
   - apply add_pipe_list_in. left. unfold recovered_queue in Hq. norm_mem. rewrite in_map_iff in *.
     destruct Hq as [[c [<- Hc]]|Hq]; [|tauto]. cbn. exists c. tauto.
@@ -301,9 +301,9 @@ Proof.
   all: split_facts q; norm_mem.
   all: try tauto.
   all: try (destruct Hq as [[Hq|[<-|[]]]|Hq]; [tauto|cbn; congruence|tauto]).
-  - destruct Hq as [Hq|[[Hq|[<-|[]]]|Hq]]; try tauto.
+  - destruct Hq as [Hq|[[<-|Hq]|Hq]]; try tauto.
     change (q_pipe q0 <> p). apply (aE _ Hs p q0 Hr). rewrite !in_app_iff. right. left. eapply tf_head_in; eassumption.
-  - destruct Hq as [Hq|[[Hq|[<-|[]]]|Hq]]; try tauto.
+  - destruct Hq as [Hq|[[<-|Hq]|Hq]]; try tauto.
     change (q_pipe q0 <> r). apply item_on_true in H0. congruence.
   - apply item_on_false. destruct Hq as [Hq|[Hq|Hq]]; auto.
 Qed.
@@ -361,7 +361,7 @@ Proof.
   all: try (destruct Hq as [[Hq|[<-|[]]]|Hq]; [tauto|cbn; tauto|tauto]).
   all: try (match goal with E : persist _ _ _ _ = _ |- _ => apply persist_spec in E;
             destruct E as [[? [-> ->]]|[[? [? [-> ->]]]|[? [? [-> ->]]]]]; norm_mem; tauto end).
-  - destruct Hq as [Hq|[[Hq|[<-|[]]]|Hq]]; try tauto. cbn in *.
+  - destruct Hq as [Hq|[[<-|Hq]|Hq]]; try tauto. cbn in *.
     apply (aK _ Hs q0); [|assumption]. unfold items. rewrite !in_app_iff. right. left. eapply tf_head_in; eassumption.
   - destruct (chunk_eq_dec (q_chunk q) (q_chunk q0)) as [Eq|Nq].
     + right. rewrite Eq. assumption.
